@@ -34,6 +34,7 @@ def run(ctx, progs):
     for r, t in (("DRN1", "drain typestate"), ("DROPPER1", "guards before drops"), ("DRAINIT1", "index iterator protocol"),
                  ("BACKFILL1", "back-fill on every path to the restore"), ("DRNVIEW1", "un-yielded views bounded by iter, never by range"), ("MOD1", "capacity zero"), ("RANGE1", "bound translation")):
         ctx.rule(r, t)
+    ctx.rule("KIND1", "index-kind inference: physical positions and logical indices/lengths are never compared, and never stand in for each other")
     for cfg, prog in progs.items():
         drainrules.drn1_abcf(ctx, prog, cfg)
         c05.drn1_de(ctx, prog, cfg)
@@ -43,6 +44,9 @@ def run(ctx, progs):
 
         c08.iterset1(ctx, prog, cfg, "DRAINIT1", types=("Drain",))
         drainrules.drnview1(ctx, prog, cfg)
+        from .. import kinds
+
+        kinds.run(ctx, prog, cfg, only=lambda s: "Drain" in s)
         from .. import shapes
 
         shapes.viewcmp1(ctx, prog, cfg, groups=[["Drain::as_slices", "Drain::as_mut_slices"]])
